@@ -34,6 +34,7 @@ def run(ctx):
     check_exhaustive(ctx, prog)
     check_accept(ctx, prog)
     check_chunks(ctx, prog, m)
+    check_corpus(ctx, prog, m)
     check_numbers(ctx, prog)
     check_utf16_helper(ctx)
     import nullret
@@ -460,3 +461,39 @@ def check_numbers(ctx, prog):
                           'the literal value %s reaches `(int)` (%s): integers beyond the range of int decode to INT_MIN / garbage instead of the double the text denotes' % (
                               ', '.join('%s' % v for v in info.values()) if isinstance(info, dict) else '', pe(e)))
     ctx.floor('C06.numbers integer conversions', n, 1)
+
+
+CORPUS = [b'[1e5]', b'[1E+3,2]', b'{"a":1e5}', b'{"a":2E-3,"b":true}', b'[1.5,2]', b'[1.5]', b'[-1]', b'[0]', b'[10,20]', b'[1 ,2]', b'{"a":[1e2]}', b'[[1e1],2]',
+          b'[true,false,null]', b'["x",1]', b'{"a":"b"}', b'[]', b'{}', b'[ ]', b'[1.0e+10 ]', b'[-0.5e-2,3]', b'{"a":{"b":[1,2.5,{"c":null}]},"d":"e"}',
+          b'["\\u00e9\\n",{"k":[]}]', b'{"a\xc3\xb1o":["\xe2\x82\xac"]}', b'{"application/json":"text/plain"}', b'[1,\n 2]\n', b'{"a" : 1 , "b" : [ ] }']
+
+
+def check_corpus(ctx, prog, m):
+    """C06.docs: a necessary condition of "every RFC 8259 document is accepted": for each document of a small corpus (numbers in
+    every form directly followed by `,` `]` `}`, nested containers, strings with escapes, white space) the abstract parser
+    machine - run on the document's bytes, following both branches wherever a decision depends on untracked data - has at
+    least one run that ends with every container closed and no error.  If no run does, the real parser rejects (or
+    mis-structures) that document whatever the untracked data are."""
+    f = fn1(prog, 'asl::XdlParser::parse')
+    states = enum_of(prog, 'WAIT_VALUE')
+    S = dict((c['n'], c['v']) for c in states['consts'])
+    role = 'parse:every document of the corpus has an accepting run'
+    if m is None:
+        return          # the parser loop is not a machine over its own state (reported by the machine / chunk rules)
+    bad = None
+    total = 0
+    for doc in CORPUS:
+        try:
+            envs = m.run_text(doc)
+        except automaton.Stuck as ex:
+            ctx.undecided('C06.docs', f['pq'], role, fwhere(f), 'the abstract machine cannot follow %s: %s' % (doc.decode('latin-1'), ex))
+            return
+        total += len(envs)
+        ctx.evaluations += len(doc)
+        ok = [e for e in envs if e.vars.get('_state') != S['ERR'] and tuple(k for k in e.stacks['_context']) == ('ROOT',) and not e.vars.get('_inComment')]
+        if not ok:
+            bad = (doc, sorted(set(m.describe(e) for e in envs))[:3])
+            break
+    ctx.check(bad is None, 'C06.docs', f['pq'], role, fwhere(f), '%d documents, %d final configurations: each document has a run that closes every container without error' % (len(CORPUS), total),
+              'no run of the parser over the valid document %s ends with all containers closed and no error (final configurations: %s): the document is rejected or its structure is lost' % (
+                  bad[0].decode('latin-1').replace('\n', '\\n') if bad else '', '; '.join(bad[1]) if bad else ''))
